@@ -75,6 +75,7 @@ type Sim struct {
 	Tape    *Tape
 	Quiesce func()         // synctest.Wait, installed by the harness
 	Knobs   map[string]int // written by the scenario before tasks start; read-only afterwards
+	HeldPoints bool        // scheduling point before every unlock (set before tasks start)
 
 	// event log
 	hash      uint64
@@ -414,6 +415,20 @@ func WrapErrFn(site string, f func() error) func() error {
 		}
 		t := s.task(site)
 		defer s.taskExit(t)
+		// a panic in a worker would kill the daemon process: it is recorded (the harness reports
+		// it) and the worker group is told to stop, instead of killing the simulator
+		defer func() {
+			if r := recover(); r != nil {
+				buf := make([]byte, 16<<10)
+				n := runtime.Stack(buf, false)
+				val := fmt.Sprint(r)
+				s.lock()
+				s.Panics = append(s.Panics, PanicRec{Task: t.Name, Value: val, Stack: string(buf[:n])})
+				s.logLocked("panic " + t.Name + " " + val)
+				s.unlock()
+				err = fmt.Errorf("worker %s panicked: %s", site, val)
+			}
+		}()
 		s.park(t, site, "point")
 		return f()
 	}
@@ -480,6 +495,11 @@ func (d InlineDeadlock) Error() string { return "lock already held in a sequenti
 //
 //go:norace
 func Unlock(unlock func(), site string) {
+	if s := cur.Load(); s != nil && s.HeldPoints {
+		// a thread can be preempted inside a critical section too: in runs that enable it, a task
+		// may be held right before it releases a lock (matters for TryLock users)
+		Point(site + ":held")
+	}
 	unlock()
 	s := cur.Load()
 	if s == nil {
